@@ -9,7 +9,8 @@ LEVEL = "exploration"
 RULE = ("a declaring SpecSet with 1-4 registry points (random flags) and 1-7 implementation classes registered in "
         "random order, each implementing a random subset of the points for one context, an any-of list of contexts, or "
         "through 1-2 levels of helper datasources bound to contexts; every implementation has an outcome (value, "
-        "multi-output list, deliberate skip, content error, crash); every one of 7 contexts (5 shipped + 2 harness "
+        "multi-output list, falsy value ([] '' 0 {}), deliberate skip, content error, crash); in half of the definitions the "
+        "last 1-2 classes are only defined after a first round of evaluations, then everything is evaluated again; every one of 7 contexts (5 shipped + 2 harness "
         "defined) is tried as the active one with a consumer parser on each point; one evaluation = (definition, "
         "active context); non-trivial = some point has >= 2 candidates for the active context or a mixed-context "
         "declaration; distinct by hash of (definition, active context)")
